@@ -114,11 +114,14 @@ static void compare(const B &s, const B &l, Verdict &v)
             return;
         }
     }
-    std::string ss = sstr(s), sl = sstr(l);
-    if (ss != sl) {
-        v.fail = "str-differs";
-        v.detail = "str(original)=" + ss + " str(loaded)=" + sl;
-        return;
+    if (refl) {
+        // (with a nan inside, the printer's term order is not a function of the value: __cmp__ of nan is inconsistent)
+        std::string ss = sstr(s), sl = sstr(l);
+        if (ss != sl) {
+            v.fail = "str-differs";
+            v.detail = "str(original)=" + ss + " str(loaded)=" + sl;
+            return;
+        }
     }
     std::multiset<std::pair<std::string, size_t>> ds, dl;
     std::set<const Basic *> seen1, seen2;
@@ -217,21 +220,37 @@ static bool has_type(const B &e, TypeID t)
     return false;
 }
 
+static void trace(const std::string &recipe, const std::string &what)
+{
+    static const char *tp = getenv("VERIF_C19_TRACE");
+    if (!tp)
+        return;
+    static FILE *f = nullptr;
+    static pid_t fp = 0;
+    if (fp != getpid()) {
+        fp = getpid();
+        f = fopen((std::string(tp) + "." + std::to_string((long)fp)).c_str(), "a");
+    }
+    if (f)
+        fprintf(f, "%s\t%s\n", recipe.c_str(), what.c_str());
+}
+
 static void judge(const B &s, const std::string &recipe, Ctx &c)
 {
     c.eval();
     Verdict v = roundtrip(s);
+    trace(recipe, (v.refused ? "refused " : v.fail.empty() ? "ok " : v.fail + " ") + key(*s));
     std::string cls = node_class(*s);
     if (v.refused) {
         c.count(K_REFUSED);
-        c.outcome(cls + ":" + v.refusal);
+        c.outcome("refused:" + std::string(type_code_name(s->get_type_code())) + ":" + v.refusal);
         return;
     }
     if (!v.fail.empty()) {
         Verdict vc = v;
         B cul = locate(s, vc);
         std::string sig = vc.fail + ":" + node_class(*cul) + child_classes(cul);
-        c.outcome(cls + ":" + vc.fail);
+        c.outcome("fail:" + cls + ":" + vc.fail);
         c.violation(sig, "state " + recipe + " = " + sstr(s) + " [" + key(*s) + "]: " + v.fail + ": " + v.detail
                              + (cul.get() != s.get() ? " ; smallest failing sub-expression " + sstr(cul) + " [" + key(*cul)
                                                            + "]: " + vc.fail + ": " + vc.detail
@@ -256,7 +275,16 @@ static void judge(const B &s, const std::string &recipe, Ctx &c)
         c.count(K_HAS_DOUBLE);
     if (has_type(s, SYMENGINE_DUMMY))
         c.count(K_HAS_DUMMY);
-    c.outcome(cls + child_classes(s) + (v.shared ? ":shared" : "") + (v.eq_skipped ? ":irreflexive" : ""));
+    c.outcome("ok:" + cls + (v.shared ? ":shared" : "") + (v.eq_skipped ? ":irreflexive" : ""));
+    {
+        std::string tn = type_code_name(s->get_type_code());
+        std::set<std::string> seen_edge;
+        for (auto &ch : children(s)) {
+            std::string e = "edge:" + tn + ">" + type_code_name(ch->get_type_code());
+            if (seen_edge.insert(e).second)
+                c.outcome(e);
+        }
+    }
     if (c.index % 20011 == 7)
         c.sample("{\"state\":" + jstr(recipe) + ",\"str\":" + jstr(sstr(s)) + ",\"dump_bytes\":" + std::to_string(v.bytes)
                  + ",\"graph_nodes\":" + std::to_string(v.nodes) + ",\"shared\":" + (v.shared ? "true" : "false") + "}");
@@ -361,7 +389,7 @@ static std::string type_sig(const B &e, bool with_children)
 // re-create the states of a finished layer in the parent (only transitions that ran cleanly) and pick
 // representatives: the first state per class signature
 static void pick_reps(const Pool &P, const std::vector<Tr> &T, const CaseSet &cs, bool with_children, size_t per_type_cap,
-                      std::set<std::string> &have_keys, std::set<std::string> &have_sigs, Pool &out, StateSet &all)
+                      std::set<std::string> &have_keys, std::set<std::string> &have_sigs, Pool &out, std::unordered_set<uint64_t> &all)
 {
     std::map<std::string, size_t> per_type;
     for (size_t i = 0; i < T.size(); i++) {
@@ -374,8 +402,7 @@ static void pick_reps(const Pool &P, const std::vector<Tr> &T, const CaseSet &cs
             continue;
         }
         std::string k = key(*r);
-        bool fresh;
-        all.add(r, "", 0, &fresh);
+        all.insert(fnv(k));
         if (have_keys.count(k))
             continue;
         std::string sg = type_sig(r, with_children);
@@ -410,9 +437,9 @@ int main(int argc, char **argv)
         P0.e.push_back(l.e);
         P0.recipe.push_back(l.name);
     }
-    StateSet ALL;
+    std::unordered_set<uint64_t> ALL; // hashes of the structural keys of all distinct states re-created in the parent
     for (size_t i = 0; i < P0.size(); i++)
-        ALL.add(P0.e[i], P0.recipe[i], 0);
+        ALL.insert(fnv(key(*P0.e[i])));
 
     // ---- L0: leaves
     CaseSet l0;
@@ -446,8 +473,8 @@ int main(int argc, char **argv)
     size_t n0 = P0.size();
     {
         Pool reps;
-        // quick: one representative per type code; thorough: per (type code, child classes), at most 6 per type code
-        pick_reps(P0, T1, l1, thorough, thorough ? 6 : 1, have_keys, have_sigs, reps, ALL);
+        // quick: one representative per type code; thorough: per (type code, child classes), at most 3 per type code
+        pick_reps(P0, T1, l1, thorough, thorough ? 3 : 1, have_keys, have_sigs, reps, ALL);
         for (size_t i = 0; i < reps.size(); i++) {
             P1.e.push_back(reps.e[i]);
             P1.recipe.push_back(reps.recipe[i]);
@@ -651,7 +678,7 @@ int main(int argc, char **argv)
         size_t nsmall = P2.size();
         Pool reps2;
         std::set<std::string> sigs2 = have_sigs;
-        pick_reps(P1, T2, l2, true, 40, have_keys, sigs2, reps2, ALL);
+        pick_reps(P1, T2, l2, true, 8, have_keys, sigs2, reps2, ALL);
         for (size_t i = 0; i < reps2.size(); i++) {
             P2.e.push_back(reps2.e[i]);
             P2.recipe.push_back(reps2.recipe[i]);
@@ -666,10 +693,40 @@ int main(int argc, char **argv)
                 T3r.push_back(t);
         CaseSet l3;
         run_layer("L3:ctor(R2,small)", P2, T3r, l3);
+        lap("L3");
         bound += "; L3: all " + std::to_string(T3r.size()) + " admissible ctor(R2) / ctor(R2,small leaf) / ctor(r,r) over |R2|="
                  + std::to_string(reps2.size()) + " representatives of (class, child classes) reached in L2";
     }
     R.counters["distinct_states_L1_and_rep_sources"] = ALL.size();
+    {
+        // class coverage, derived from the outcomes the workers reported
+        std::set<std::string> okc, refc, failc;
+        uint64_t edges = 0;
+        for (auto &o : R.outcomes) {
+            auto cut = [](std::string t) {
+                size_t p = t.find_first_of("[:(");
+                return p == std::string::npos ? t : t.substr(0, p);
+            };
+            if (o.rfind("ok:", 0) == 0)
+                okc.insert(cut(o.substr(3)));
+            else if (o.rfind("refused:", 0) == 0)
+                refc.insert(cut(o.substr(8)));
+            else if (o.rfind("fail:", 0) == 0)
+                failc.insert(cut(o.substr(5)));
+            else if (o.rfind("edge:", 0) == 0)
+                edges++;
+        }
+        auto lst = [](const std::set<std::string> &v) {
+            std::string o = "[";
+            for (auto &x : v)
+                o += (o.size() > 1 ? "," : "") + jstr(x);
+            return o + "]";
+        };
+        R.extra_json = "\"classes_roundtrip_verified\":" + lst(okc) + ",\"classes_dumps_refused\":" + lst(refc)
+                       + ",\"classes_with_failing_states\":" + lst(failc) + ",\"parent_child_class_pairs_verified\":" + std::to_string(edges);
+        R.counters["classes_roundtrip_verified"] = okc.size();
+        R.counters["parent_child_class_pairs_verified"] = edges;
+    }
     R.states = R.counters["states_roundtrip_verified"] + R.counters["matrices_roundtrip_verified"];
     R.transitions = R.evaluations;
     R.bound_completed = bound;
